@@ -64,6 +64,9 @@ pub fn install_panic_hook() {
     }));
 }
 
+/// the hook is process-wide; nothing to do per thread (kept for clarity at call sites)
+pub fn install_panic_hook_noop() {}
+
 pub fn last_panic() -> String {
     LAST_PANIC.with(|p| p.borrow().clone())
 }
